@@ -54,7 +54,8 @@ void calcVarExpressed(double ss, dvector *eval, dvector *varexp)
 /* ss is the sum of squares, eval = eigenvalue  varexp is an object that is resized for each component */
 {
   for(size_t i = 0; i < eval->size; i++){
-    DVectorAppend(varexp, (eval->data[i]/ss) * 100);
+    /* a matrix without any variance (ss == 0) explains 0% with every component */
+    DVectorAppend(varexp, (ss > 0.f) ? (eval->data[i]/ss) * 100 : 0.f);
     #ifdef DEBUG
     printf("Variance expressed for PC %u\t %f\n", (unsigned int)i, (getDVectorValue(eval, i)/ss) * 100);
     #endif
@@ -251,6 +252,28 @@ void PCA(matrix *mx, int scaling, size_t npc, PCAMODEL* model, ssignal *s)
 
       DelDVector(&colvar);
 
+      /* Without centering (scaling -1) the column of largest variance can be
+       * a null column while E still holds constant non null columns: start
+       * then from the column of largest norm.
+       */
+      mod_t = 0.f;
+      for(i = 0; i < E->row; i++)
+        mod_t += square(E->data[i][j]);
+
+      if(mod_t == 0.f){
+        size_t k;
+        for(k = 0; k < E->col; k++){
+          double col_ss = 0.f;
+          for(i = 0; i < E->row; i++)
+            col_ss += square(E->data[i][k]);
+
+          if(col_ss > mod_t){
+            mod_t = col_ss;
+            j = k;
+          }
+        }
+      }
+
       /* copy the vector to the score mx.t_old for computing loadings */
       for(i = 0; i < E->row; i++)
         t->data[i] = E->data[i][j];
@@ -262,6 +285,15 @@ void PCA(matrix *mx, int scaling, size_t npc, PCAMODEL* model, ssignal *s)
         MT_DVectorMatrixDotProduct(E, t, p);
         /* calc the vectors product t'*t = Sum(t[i]^2) */
         mod_t = DVectorDVectorDotProd(t, t);
+
+        if(mod_t == 0.f){
+          /* Null component: the (deflated) matrix has no variance left, so
+           * the convergence criterion would be NaN forever. Scores, loadings
+           * and dmodx of this component stay zero, the eigenvalue is zero.
+           */
+          eval->data[pc] = 0.f;
+          break;
+        }
 
         /* division of (t'*E)/t'*t (mx.p/mx.mod_t_old) for calculate the p' vector that represents the loadings */
         for(i = 0; i < p->size; i++)
